@@ -32,6 +32,7 @@ func init() {
 		Run: func(t *testing.T, rec *core.Recorder) {
 			env, _ := sharedEnv(t)
 			checkDefaultSetsAgree(t, rec, env)
+			checkParamCellsIndependent(t, rec)
 			check(t, func(rt *rapid.T) {
 				defer env.Release()
 				sc := drawSelCase(rt)
@@ -43,6 +44,7 @@ func init() {
 			var sc selCase
 			if err := json.Unmarshal(raw, &sc); err != nil || sc.WS == nil {
 				checkDefaultSetsAgree(t, rec, env)
+				checkParamCellsIndependent(t, rec)
 				return
 			}
 			checkC06(t, rec, env, &sc)
@@ -113,15 +115,25 @@ func drawSelCase(rt *rapid.T) *selCase {
 			sc.Inert["ruleguard.rules"] = "/nonexistent/x.go"
 		}
 	}
-	for _, key := range []string{"hugeParam.sizeThreshold", "ifElseChain.minThreshold", "captLocal.paramsOnly", "tooManyResultsChecker.maxResults"} {
+	// any registered parameter of a checker outside the selection, with a value of its type
+	var inertKeys []string
+	for _, in := range reg {
+		if in.Name == "ruleguard" || specRuns(in, eff) {
+			continue
+		}
+		for pn := range in.Params {
+			inertKeys = append(inertKeys, in.Name+"."+pn)
+		}
+	}
+	sort.Strings(inertKeys)
+	for n := rapid.IntRange(0, 4).Draw(rt, "ninert"); n > 0 && len(inertKeys) > 0; n-- {
+		key := inertKeys[rapid.IntRange(0, len(inertKeys)-1).Draw(rt, "inertKey")]
 		name := key[:strings.IndexByte(key, '.')]
-		if in := core.InfoByName(name); in != nil && !specRuns(in, eff) && rapid.Bool().Draw(rt, "inert-"+name) {
-			switch in.Params[key[len(name)+1:]].Value.(type) {
-			case int:
-				sc.Inert[key] = "1"
-			case bool:
-				sc.Inert[key] = "false"
-			}
+		switch v := core.InfoByName(name).Params[key[len(name)+1:]].Value.(type) {
+		case int:
+			sc.Inert[key] = pickT(rt, "inertInt", []string{"0", "1", "2", "1000"})
+		case bool:
+			sc.Inert[key] = fmt.Sprint(!v)
 		}
 	}
 	ws, _ := gen.DrawWorkspace(rt, gen.WSOpts{MaxPkgs: 1, Kernels: e2eKernels()})
@@ -223,6 +235,60 @@ func checkDefaultSetsAgree(t core.TB, rec *core.Recorder, env *gen.Env) {
 	}
 }
 
+// checkParamCellsIndependent: a parameter of one checker is a cell of its own. The front-ends
+// write flag values into the registered cells of checkers whether or not they are selected, so a
+// cell shared by two checkers lets the parameter of an unselected checker configure a selected one.
+// Every registered parameter is changed in turn (and restored); no other parameter may move.
+func checkParamCellsIndependent(t core.TB, rec *core.Recorder) {
+	type cell struct {
+		key string
+		p   *linter.CheckerParam
+	}
+	var cells []cell
+	for _, in := range core.Registry() {
+		names := make([]string, 0, len(in.Params))
+		for n := range in.Params {
+			names = append(names, n)
+		}
+		sort.Strings(names)
+		for _, n := range names {
+			cells = append(cells, cell{in.Name + "." + n, in.Params[n]})
+		}
+	}
+	snapshot := func() []interface{} {
+		out := make([]interface{}, len(cells))
+		for i, c := range cells {
+			out[i] = c.p.Value
+		}
+		return out
+	}
+	for i, c := range cells {
+		rec.Eval()
+		before := snapshot()
+		old := c.p.Value
+		switch v := old.(type) {
+		case bool:
+			c.p.Value = !v
+		case int:
+			c.p.Value = v + 12345
+		case string:
+			c.p.Value = v + "#verif"
+		default:
+			continue
+		}
+		after := snapshot()
+		c.p.Value = old
+		rec.Nontrivial("param-cell", c.key)
+		for j := range cells {
+			if j != i && before[j] != after[j] {
+				rec.Violation(t, "C06|param-cell-shared|"+c.key+"~"+cells[j].key,
+					fmt.Sprintf("setting %s also changes %s (%v -> %v): a parameter given to an unselected checker is not inert", c.key, cells[j].key, before[j], after[j]),
+					map[string]string{"clause": "param-cells"})
+			}
+		}
+	}
+}
+
 func checkC06(t core.TB, rec *core.Recorder, env *gen.Env, sc *selCase) {
 	rec.Eval()
 	if e2e.BinDir() == "" {
@@ -299,6 +365,18 @@ func checkC06(t core.TB, rec *core.Recorder, env *gen.Env, sc *selCase) {
 		if !wantSet[l.Checker] {
 			fail("attribution", fmt.Sprintf("diagnostic attributed to %s which is not selected: %s", l.Checker, l.Key()))
 			break
+		}
+	}
+	// inert parameters, observed: the same run without them prints the same diagnostics
+	if len(sc.Inert) > 0 {
+		res0 := runSelection(sc.FrontEnd, sc.Sel, sc.Sel.HasEnable, sc.Sel.HasDis, nil, root)
+		lines0, _ := e2e.ParseLines(res0.Out)
+		if !res0.TimedOut {
+			onlyWith, onlyWithout := diffKeys(e2e.SortedKeys(lines), e2e.SortedKeys(lines0))
+			if len(onlyWith) > 0 || len(onlyWithout) > 0 || res.Exit != res0.Exit {
+				fail("unselected-parameter-not-inert", fmt.Sprintf("parameters of unselected checkers %v change the output: only with them %v; only without %v; exit %d vs %d",
+					sc.Inert, trimLines(onlyWith, 4), trimLines(onlyWithout, 4), res.Exit, res0.Exit))
+			}
 		}
 	}
 	// both halves of the algebra exercised?
